@@ -406,6 +406,7 @@ def arg_text_for_cmp(bench, i):
 def same_position_suffix(ma, mb):
     """Discriminator for the known-findings key: two distinct entries that share one source position."""
     la, lb = TG.node_location(ma), TG.node_location(mb)
-    if la is not None and la == lb and ma.location is not None and mb.location is not None:
+    same_benchmark = ma.bench is not None and ma.bench is mb.bench
+    if la is not None and la == lb and ma.location is not None and mb.location is not None and not same_benchmark:
         return ":distinct_entries_at_one_source_position"
     return ""
